@@ -317,9 +317,9 @@ def rotationNecessary (r : RotCfg) (a : Active) (now : Nat) : Bool :=
   (match r.maxSize with | some mx => decide (a.size > mx) | none => false) ||
   (match r.age with | some ag => decide (ag.trunc a.created ≠ ag.trunc now) | none => false)
 
-/-- `mount_next_linewriter_if_necessary`. Returns the state, the writer and whether an error
-    was returned (`Err`). -/
-def mountNext (s : St) (a : Active) (r : RotCfg) (force : Bool) (now : Nat) (fl : Faults) :
+/-- `mount_next_linewriter_if_necessary` after the initial flush. Returns the state, the writer
+    and whether an error was returned (`Err`). -/
+def mountNextCore (s : St) (a : Active) (r : RotCfg) (force : Bool) (now : Nat) (fl : Faults) :
     St × Active × Bool :=
   if !(force || rotationNecessary r a now) then (s, a, false)
   else
@@ -361,6 +361,16 @@ def mountNext (s : St) (a : Active) (r : RotCfg) (force : Bool) (now : Nat) (fl 
         -- 3. cleanup
         let (d, cerr) := cleanup now s.cfg r fl s.dir
         ({ s with dir := d }, a, cerr)
+
+/-- `mount_next_linewriter_if_necessary`: what is still buffered is written to the file that is
+    rotated out BEFORE that file gets its final name (`current_write.flush()`), then the rotation
+    proper (`mountNextCore`; the drop of the old `BufWriter` flushes again, now a no-op). -/
+def mountNext (s : St) (a : Active) (r : RotCfg) (force : Bool) (now : Nat) (fl : Faults) :
+    St × Active × Bool :=
+  if !(force || rotationNecessary r a now) then (s, a, false)
+  else
+    let (s, a) := flushAct s a
+    mountNextCore s a r true now fl
 
 /-! ### operations -/
 
